@@ -1113,8 +1113,58 @@ def g_history(r):
 
 
 # ------------------------------------------------------------------ harness interface
+LOOKUP_MAPS = ["map{'a': 1, 'b': (2, 3)}", "map{'a': 'x'}", "map{1: 'one', 'a': ()}", "map{'b': [7, 8], 'a': map{'a': 0}}", 'map{}']
+LOOKUP_ARRAYS = ['[1, 2, 3]', '[(4, 5), 6]', "['p', ['q']]", '[(), 9]']
+
+
+def check_lookup_law(case, out):
+    """postfix lookup over a SEQUENCE of maps/arrays is its definitional expansion (XPath 3.1, 3.11.3):
+    E?(K) = for $e in E, $k in data(K) return $e($k);  E?* = for $e in E return $e?*;  E?name / E?N likewise"""
+    E, K, form = case['E'], case['K'], case['form']
+    e_src = '(%s)' % ', '.join(E)
+    if form == 'paren':
+        lhs = '%s?(%s)' % (e_src, ', '.join(K))
+        rhs = 'for $e in %s, $k in data((%s)) return $e($k)' % (e_src, ', '.join(K))
+    elif form == 'star':
+        lhs = '%s?*' % e_src
+        rhs = 'for $e in %s return $e?*' % e_src
+    elif form == 'unary-paren':
+        lhs = '%s ! ?(%s)' % (e_src, ', '.join(K))
+        rhs = 'for $e in %s, $k in data((%s)) return $e($k)' % (e_src, ', '.join(K))
+    else:
+        k = K[0].strip("'")
+        lhs = '%s?%s' % (e_src, k)
+        rhs = 'for $e in %s return $e(%s)' % (e_src, K[0])
+    a, b = ev(lhs, {}), ev(rhs, {})
+    out.dim('lookup_law', form)
+    out.dim('lookup_operand_items', min(len(E), 3))
+    out.dim('comparisons', 'lookup-law')
+    da = edesc(a[1]) if a[0] == 'ok' else list(a[:2])
+    db = edesc(b[1]) if b[0] == 'ok' else list(b[:2])
+    out.nontrivial = b[0] == 'ok' and len(E) > 1
+    out.obs = '%s -> %s' % (lhs, short(da, 120))
+    if da != db:
+        out.fail('C15/lookup-law/%s/%s-operand' % (form, 'several-items' if len(E) > 1 else 'one-item'),
+                 {'lookup': lhs, 'got': short(da), 'expansion': rhs, 'expansion-gives': short(db)})
+
+
+def g_lookup_law(r):
+    arrays = r.random() < 0.45
+    pool = LOOKUP_ARRAYS if arrays else LOOKUP_MAPS
+    E = [r.choice(pool) for _ in range(r.choice([1, 2, 2, 3, 3]))]
+    keys = ['1', '2'] if arrays else ["'a'", "'b'", '1']
+    form = r.choice(['paren', 'paren', 'star', 'unary-paren', 'name'])
+    K = [r.choice(keys) for _ in range(1 if form == 'name' else r.choice([1, 1, 2, 3]))]
+    if form == 'name' and K[0] == '1' and not arrays:
+        K = ["'a'"]
+    return {'E': E, 'K': K, 'form': form}
+
+
 def check_case(kind, case):
     out = Outcome()
+    if kind == 'lookup-law':
+        check_lookup_law(case, out)
+        return out
     if kind == 'history':
         executed = run_history(case, out)
         out.nontrivial = executed >= 3
@@ -1184,6 +1234,8 @@ def run(h):
     r = h.rng
     for _ in range(h.n(2500)):
         h.case('history', g_history(r))
+    for _ in range(h.n(300)):
+        h.case('lookup-law', g_lookup_law(r))
 
 
 ALL_OPS = [n for n, w in MAP_OPS + ARR_OPS + CTOR_OPS]
